@@ -90,4 +90,11 @@ theorem shape_handleLogout_ok : Oidc.Shapes.Shape_handleLogout := by unfold Oidc
 
 theorem shape_determineScheme_ok : Oidc.Shapes.Shape_determineScheme := by unfold Oidc.Shapes.Shape_determineScheme; rfl
 theorem shape_determineHost_ok : Oidc.Shapes.Shape_determineHost := by unfold Oidc.Shapes.Shape_determineHost; rfl
+/-! obligations against the regenerated program text of session.go: the functions these theorems rest on read, statement for
+    statement, as they did when the session model was written after them (`Oidc/Shapes.lean`) -/
+theorem text_SessionData_Clear_ok : Oidc.Shapes.Text_SessionData_Clear := by unfold Oidc.Shapes.Text_SessionData_Clear; rfl
+theorem text_SessionData_clearTokenChunks_ok : Oidc.Shapes.Text_SessionData_clearTokenChunks := by unfold Oidc.Shapes.Text_SessionData_clearTokenChunks; rfl
+theorem text_SessionData_Save_ok : Oidc.Shapes.Text_SessionData_Save := by unfold Oidc.Shapes.Text_SessionData_Save; rfl
+theorem text_SessionData_deleteStaleChunkCookies_ok : Oidc.Shapes.Text_SessionData_deleteStaleChunkCookies := by unfold Oidc.Shapes.Text_SessionData_deleteStaleChunkCookies; rfl
+
 end Oidc.Props.C11
